@@ -198,6 +198,27 @@ class Session:
         ic_states = {el: dict(v) for el, v in self.net.states.items()}
         before = dyn.snap_init_conditions(ic_states)
         kw = {"compact": op.get("compact", 0), "more_out": op.get("more_out", False)}
+        fault = op.get("fault")
+        if fault and fault["kind"] == "interrupt":
+            # compilation cut at a seeded line event: nothing the caller holds may have changed,
+            # and the next complete step / compile must be exact again (checked by later ops)
+            try:
+                total = max(1, dyn.count_line_events(lambda: eng.to_function(self.net, T=sop["opts"]["T"], **kw)))
+            except Exception:
+                total = 200
+            seam = dyn.LineSeam(1 + int(fault["frac"] * total), dyn.interrupt_action)
+            try:
+                seam.run(lambda: eng.to_function(self.net, T=sop["opts"]["T"], **kw))
+            except core.SimInterrupt:
+                self.res.faults["interrupt_compile"] += 1
+            except Exception:
+                pass
+            after = dyn.snap_init_conditions({el: dict(v) for el, v in self.net.states.items()})
+            if [x[2] for x in before[1]] != [x[2] for x in after[1]]:
+                raise Violation("C12/caller-data-modified", f"{where}: element states changed by an interrupted compilation")
+            if dyn.snap_params(self.U) != self.params0:
+                raise Violation("C12/element-parameter-modified", f"{where}: an element parameter changed")
+            return "interrupted"
         try:
             F = eng.to_function(self.net, T=sop["opts"]["T"], **kw)
         except Exception as e:
@@ -273,6 +294,15 @@ class Session:
                 elif k == "use":
                     M.engines.use(self.engines[op["eng"]])
                     outcome = "ok"
+                elif k == "build":
+                    # the network is extended between steps; the twin of any later step is built
+                    # from scratch with all construction calls made so far
+                    dyn.apply_build_op(self.net, self.U, op["build"])
+                    self.build_ops.append(op["build"])
+                    self.refs = dyn.element_refs(dyn.topo_of_ops(self.build_ops))
+                    self.last_sym = None
+                    self.res.faults["add_after_step"] += 1
+                    outcome = "ok"
                 else:
                     raise core.HarnessError(f"unknown op {k}")
             except Violation as v:
@@ -337,21 +367,33 @@ def gen_step(rng, cfg, kind=None, allow_fault=True, tier="quick"):
 
 def generate(prop: str, run_seed: int, tier: str = "quick") -> dict:
     rng = core.rng_of(run_seed)
-    U = dyn.gen_dyn_universe(rng, ideal_origins=False, name_mode=rng.choice(["unique", "unique", "dup"]))
+    U = dyn.gen_dyn_universe(rng, ideal_origins=False, name_mode=rng.choice(["unique", "unique", "dup"]), big=rng.random() < 0.5)
+    U["origins"] += [dyn.gen_origin_spec(rng, f"O{len(U['origins']) + i}", dyn.STEPPABLE_ORIGIN_KINDS) for i in range(2)]
+    U["dests"] += [dyn.gen_dest_spec(rng, f"D{len(U['dests']) + i}") for i in range(1)]
     topo = dyn.gen_dyn_topology(rng, U)
     if rng.random() < 0.25:
         # element parameters are caller-owned NumPy arrays (NumPy engine only in such runs)
         U["param_arrays"] = rng.choice(["0d", "1d"])
     enabled = set()
     if rng.random() > 0.34:
-        for f in ("interrupt", "alias", "sibling", "elem", "garbage"):
+        for f in ("interrupt", "alias", "sibling", "elem", "garbage", "build"):
             if rng.random() < 0.6:
                 enabled.add(f)
+    if "build" in enabled:
+        enabled.discard("sibling")  # the sibling shares the initial topology only
     refs = dyn.element_refs(topo)
+    from .c19 import gen_extension
+    from .refnet import RefNet, effects
+
+    model = RefNet()
+    for o in dyn.canonical_ops(topo):
+        for e in effects(o):
+            model.apply_effect(e)
+    used = set(refs) | set(model.nodes)
     cfg = {
         "topology": topo, "enabled": sorted(enabled), "refs": refs,
         "sizes": {r: U["links"][int(r[1:])]["N"] for r in refs if r[0] == "l"},
-        "merging_ramp": dyn.has_merging_ramp(topo, U),
+        "merging_ramp": dyn.has_merging_ramp(topo, U) or "build" in enabled,
         "sibling": "sibling" in enabled,
         "garbage": rng.choice(["empty", "rand", "randn", 7.5]) if "garbage" in enabled else "empty",
         "numpy_only": bool(U.get("param_arrays")),
@@ -363,9 +405,18 @@ def generate(prop: str, run_seed: int, tier: str = "quick") -> dict:
         if r < 0.62:
             ops.append(gen_step(rng, cfg, tier=tier))
         elif r < 0.72:
-            ops.append({"op": "compile", "compact": rng.choice([0, 1, 2]), "more_out": rng.random() < 0.5, "pt": rng.getrandbits(16)})
-        elif r < 0.80:
+            c = {"op": "compile", "compact": rng.choice([0, 1, 2]), "more_out": rng.random() < 0.5, "pt": rng.getrandbits(16)}
+            if "interrupt" in enabled and rng.random() < 0.3:
+                c["fault"] = {"kind": "interrupt", "frac": round(rng.random(), 4)}
+            ops.append(c)
+        elif r < 0.76:
             ops.append({"op": "use", "eng": "numpy" if cfg["numpy_only"] else rng.choice(ENG_KINDS)})
+        elif r < 0.82 and "build" in enabled:
+            b = gen_extension(rng, U, model, used)
+            if b is not None:
+                for e in effects(b):
+                    model.apply_effect(e)
+                ops.append({"op": "build", "build": b})
         elif r < 0.90 and "elem" in enabled:
             ops.append({"op": "elem", "el": rng.choice([x for x in refs if x[0] in "lo"]),
                         "eng": "numpy" if cfg["numpy_only"] else rng.choice(ENG_KINDS),
@@ -421,7 +472,7 @@ TIERS = {
     "C12": {
         "quick": {"runs": 6000, "selftest": 12, "chunk": 100, "wall_cap": 900, "run_timeout": 120},
         "thorough": {"runs": 150000, "selftest": 48, "chunk": 400, "wall_cap": 3300, "run_timeout": 120,
-                     "expect_probes": ["interrupt", "alias_arrays", "sibling_network", "twin_compared:numpy",
+                     "expect_probes": ["interrupt", "alias_arrays", "sibling_network", "add_after_step", "twin_compared:numpy",
                                        "twin_compared:sx", "twin_compared:mx"]},
     }
 }
@@ -429,7 +480,7 @@ RULES = {
     "C12": "One run = one seeded history on one valid random network (4-8 nodes, merges, bifurcations, ramps, rings, "
     "1-4 segments, all steppable origin kinds, both destination kinds): 4-15 operations among NumPy/SX/MX steps via the "
     "explicit or the selected engine with fresh value sets and option mixes, compiles at compactness 0-2, per-element "
-    "init/step, steps of a sibling network sharing the element objects, engine re-selection; faults: interrupt raised into "
+    "init/step, steps of a sibling network sharing the element objects, engine re-selection, construction calls that extend the network between steps (new source branch, new ramp, replaced destination / origin / link); faults: interrupt raised into "
     "the library at a seeded line event, aliased caller arrays, garbage engine defaults. Every complete step is compared "
     "bitwise with a never-used twin; caller data are byte-compared around every call. Non-trivial = at least one twin "
     "comparison after at least one earlier operation; distinct = distinct sequence of (op, engine, route, fault, outcome).",
